@@ -1,3 +1,5 @@
 import TephraProofs.SpanAlg
 import TephraProofs.Canon
 import TephraProofs.Nav
+import TephraProofs.LexIter
+import TephraProofs.LexInv
